@@ -1,6 +1,6 @@
 (* LikelyProofs.v — algebra of maximize / minimize over ANY tables that pass the finite checks
    (full values extending their keys): C07, C08, the likely-subtags half of C01. *)
-From UL Require Import Bytes Subtags LangId Likely Grammar BytesProofs SubtagProofs PackProofs TablesData.
+From UL Require Import Bytes Subtags LangId Likely Grammar LangIdSpec BytesProofs SubtagProofs PackProofs LangIdProofs CanonProofs RawProofs TablesData.
 From Coq Require Import Lia ZifyBool ZifyN.
 Open Scope N_scope.
 Arguments N.add : simpl never.
@@ -10,12 +10,11 @@ Arguments N.leb : simpl never.
 Arguments N.ltb : simpl never.
 Arguments N.eqb : simpl never.
 
-(* values the safe API can hold *)
-Definition wf_lang (l : option bytes) : bool :=
-  match l with None => true | Some b => small b && (length b <=? 8)%nat && negb (beqb b und) end.
-Definition wf_sub4 (s : option bytes) : bool :=
-  match s with None => true | Some b => small b && (length b <=? 4)%nat end.
-Definition wf_triple (l s r : option bytes) : bool := wf_lang l && wf_sub4 s && wf_sub4 r.
+(* values the safe API can hold: canonical subtag texts (exactly what the parsers produce) *)
+Definition wf_lang (l : option bytes) : bool := canon_lang l.
+Definition wf_script (s : option bytes) : bool := opt_all canon_script s.
+Definition wf_region (r : option bytes) : bool := opt_all canon_region r.
+Definition wf_triple (l s r : option bytes) : bool := wf_lang l && wf_script s && wf_region r.
 
 Lemma assoc1_in k l v : assoc1 k l = Some v -> In (k, v) l.
 Proof.
@@ -42,42 +41,15 @@ Lemma full_inv v : full v = true -> exists a b c, v = (Some a, Some b, Some c).
 Proof. destruct v as [[[a|] [b|]] [c|]]; cbn [full]; try discriminate. eauto. Qed.
 
 
-(* a subtag text that its parser accepts unchanged is a well-formed stored value *)
-Lemma alpha_small b : is_alpha b = true -> small_byte b = true.
-Proof. unfold is_alpha, is_upper, is_lower, in_range, small_byte. lia. Qed.
-Lemma digit_small b : is_digit b = true -> small_byte b = true.
-Proof. unfold is_digit, in_range, small_byte. lia. Qed.
-Lemma alnum_small b : is_alnum b = true -> small_byte b = true.
-Proof. unfold is_alnum. intros H. apply orb_true_iff in H as [H|H]; [apply alpha_small|apply digit_small]; exact H. Qed.
-
 Lemma lang_ok_wf t : language_from_bytes t = Ok (Some t) -> wf_lang (Some t) = true.
-Proof.
-  rewrite language_spec. destruct (lang_tok t) eqn:Ht; [|discriminate].
-  unfold spec_language_value. destruct (beqb (lower t) und_b) eqn:Eu; [discriminate|].
-  intros H. injection H as Hlow. rewrite Hlow in Eu.
-  unfold lang_tok, len_in in Ht. apply andb_true_iff in Ht as [Ha Hlen].
-  cbn [wf_lang]. unfold small. rewrite (forallb_imp _ _ _ alpha_small Ha).
-  change und with und_b. rewrite Eu. cbn [negb andb].
-  rewrite andb_true_r. lia.
-Qed.
-Lemma script_ok_wf t : script_from_bytes t = Ok t -> wf_sub4 (Some t) = true.
-Proof.
-  rewrite script_spec. destruct (script_tok t) eqn:Ht; [|discriminate]. intros _.
-  unfold script_tok in Ht. apply andb_true_iff in Ht as [Ha Hlen].
-  cbn [wf_sub4]. unfold small. rewrite (forallb_imp _ _ _ alpha_small Ha). lia.
-Qed.
-Lemma region_ok_wf t : region_from_bytes t = Ok t -> wf_sub4 (Some t) = true.
-Proof.
-  rewrite region_spec. destruct (region_tok t) eqn:Ht; [|discriminate]. intros _.
-  unfold region_tok in Ht. cbn [wf_sub4]. unfold small.
-  apply orb_true_iff in Ht as [Ht|Ht]; apply andb_true_iff in Ht as [Ha Hlen].
-  - rewrite (forallb_imp _ _ _ alpha_small Ha). lia.
-  - rewrite (forallb_imp _ _ _ digit_small Ha). lia.
-Qed.
-
+Proof. apply language_value_canon. Qed.
+Lemma script_ok_wf t : script_from_bytes t = Ok t -> wf_script (Some t) = true.
+Proof. apply script_value_canon. Qed.
+Lemma region_ok_wf t : region_from_bytes t = Ok t -> wf_region (Some t) = true.
+Proof. apply region_value_canon. Qed.
 
 Lemma wf_val_texts a b c : wf_val (Some a, Some b, Some c) = true ->
-  wf_lang (Some (from_raw 8 a)) = true /\ wf_sub4 (Some (from_raw 4 b)) = true /\ wf_sub4 (Some (from_raw 4 c)) = true.
+  wf_lang (Some (from_raw 8 a)) = true /\ wf_script (Some (from_raw 4 b)) = true /\ wf_region (Some (from_raw 4 c)) = true.
 Proof.
   cbn [wf_val]. intros H. apply andb_true_iff in H as [H Hc]. apply andb_true_iff in H as [Ha Hb].
   apply andb_true_iff in Ha as [Ha Hu].
@@ -155,16 +127,16 @@ Proof. reflexivity. Qed.
 
 Lemma pack_lang_not_und lb : wf_lang (Some lb) = true -> le_pack lb <> und_key.
 Proof.
-  cbn [wf_lang]. intros H. apply andb_true_iff in H as [H Hn]. apply andb_true_iff in H as [Hs _].
-  intros E. unfold und_key in E. apply le_pack_inj in E; [|exact Hs|reflexivity].
-  subst. cbn in Hn. discriminate.
+  intros H. destruct (canon_lang_small _ H) as (Hs & _ & Hn).
+  intros E. unfold und_key in E. apply le_pack_inj in E; [|exact Hs|reflexivity]. contradiction.
 Qed.
 
 Lemma raw_lang lb : wf_lang (Some lb) = true -> from_raw 8 (le_pack lb) = lb.
-Proof. cbn [wf_lang]. intros H. apply andb_true_iff in H as [H _]. apply andb_true_iff in H as [Hs Hl].
-  apply from_raw_pack; [exact Hs|lia]. Qed.
-Lemma raw_sub4 b : wf_sub4 (Some b) = true -> from_raw 4 (le_pack b) = b.
-Proof. cbn [wf_sub4]. intros H. apply andb_true_iff in H as [Hs Hl]. apply from_raw_pack; [exact Hs|lia]. Qed.
+Proof. apply canon_lang_raw. Qed.
+Lemma raw_script b : wf_script (Some b) = true -> from_raw 4 (le_pack b) = b.
+Proof. apply canon_script_raw. Qed.
+Lemma raw_region b : wf_region (Some b) = true -> from_raw 4 (le_pack b) = b.
+Proof. apply canon_region_raw. Qed.
 
 (* the complete case analysis of maximize on well-formed input *)
 Ltac fin_wf Hl Hs Hr W :=
@@ -190,11 +162,11 @@ Proof.
     destruct (match r with Some rb => assoc2 (le_pack lb) (le_pack rb) (t_lang_region T) | None => None end) as [v|] eqn:E1.
     + destruct r as [rb|]; [|discriminate]. apply assoc2_in in E1. pose proof (Wlr _ _ _ E1) as W. apply Hlr in E1 as (b & ->).
       destruct s as [sb|]; [cbn in Eall; discriminate|].
-      right. rewrite lfp_full. cbn [or_else]. rewrite (raw_lang _ Hl), (raw_sub4 _ Hr). fin_wf Hl Hs Hr W.
+      right. rewrite lfp_full. cbn [or_else]. rewrite (raw_lang _ Hl), (raw_region _ Hr). fin_wf Hl Hs Hr W.
     + destruct (match s with Some sb => assoc2 (le_pack lb) (le_pack sb) (t_lang_script T) | None => None end) as [v|] eqn:E2.
       * destruct s as [sb|]; [|discriminate]. apply assoc2_in in E2. pose proof (Wls _ _ _ E2) as W. apply Hls in E2 as (c & ->).
         destruct r as [rb|]; [cbn in Eall; discriminate|].
-        right. rewrite lfp_full. cbn [or_else]. rewrite (raw_lang _ Hl), (raw_sub4 _ Hs). fin_wf Hl Hs Hr W.
+        right. rewrite lfp_full. cbn [or_else]. rewrite (raw_lang _ Hl), (raw_script _ Hs). fin_wf Hl Hs Hr W.
       * destruct (assoc1 (le_pack lb) (t_lang_only T)) as [v|] eqn:E3; [|left; reflexivity].
         apply assoc1_in in E3. pose proof (Wlo _ _ E3) as W. apply Hlo in E3 as (a & b & c & -> & Hk).
         destruct Hk as [Hk|Hk]; [exfalso; exact (pack_lang_not_und _ Hl Hk)|]. subst a.
@@ -203,15 +175,15 @@ Proof.
   - destruct s as [sb|].
     + destruct (match r with Some rb => assoc2 (le_pack sb) (le_pack rb) (t_script_region T) | None => None end) as [v|] eqn:E1.
       * destruct r as [rb|]; [|discriminate]. apply assoc2_in in E1. pose proof (Wsr _ _ _ E1) as W. apply Hsr in E1 as (a & ->).
-        right. rewrite lfp_full. cbn [or_else]. rewrite (raw_sub4 _ Hs), (raw_sub4 _ Hr). fin_wf Hl Hs Hr W.
+        right. rewrite lfp_full. cbn [or_else]. rewrite (raw_script _ Hs), (raw_region _ Hr). fin_wf Hl Hs Hr W.
       * destruct (assoc1 (le_pack sb) (t_script_only T)) as [v|] eqn:E2; [|left; reflexivity].
         apply assoc1_in in E2. pose proof (Wso _ _ E2) as W. apply Hso in E2 as (a & c & ->).
-        right. rewrite lfp_full. rewrite (raw_sub4 _ Hs).
+        right. rewrite lfp_full. rewrite (raw_script _ Hs).
         destruct r as [rb|]; cbn [or_else]; fin_wf Hl Hs Hr W.
     + destruct r as [rb|]; [|left; reflexivity].
       destruct (assoc1 (le_pack rb) (t_region_only T)) as [v|] eqn:E2; [|left; reflexivity].
       apply assoc1_in in E2. pose proof (Wro _ _ E2) as W. apply Hro in E2 as (a & b & ->).
-      right. rewrite lfp_full. cbn [or_else]. rewrite (raw_sub4 _ Hr). fin_wf Hl Hs Hr W.
+      right. rewrite lfp_full. cbn [or_else]. rewrite (raw_region _ Hr). fin_wf Hl Hs Hr W.
 Qed.
 
 (* C01 (likely half): no panic, no fuel, no error *)
